@@ -5,6 +5,7 @@
 #define VG_RAWMAX 8         /* length bound of opaque (non-EC) signatures produced by the sign oracle */
 extern int vg_key_pk;                 /* pk algorithm of the key behind jwt->key->pem (symbolic) */
 extern int vg_live_handles, vg_import_failed;
+extern int vg_der_live;
 extern unsigned vg_verify_calls, vg_sign_calls, vg_hmac_calls, vg_encode_calls;
 extern int vg_v_algo;
 extern const unsigned char *vg_v_data;
